@@ -6,12 +6,13 @@
 // the C05 specification predicates directly on what the implementation did.
 //
 // Case lines (servers are small decimal numbers):
-//   sel   <id> <resp>                                  resp = s=term:off,...  ("-" = empty map)
-//   elect <id> <prov> <ens> <rem> <t0> <heads> <incs>  prov = mem|file; ens/rem = 1,2,3 ("-" = none); heads as resp
-//        incs = inc/inc/...      inc = round|round|...@gate
-//        round = arrivals;bl;refence   arrivals = 1+,2-,T,3+ ; bl = ok|err ; refence = 4+,5- or "-"
-//        gate = none|s1pre|s1post|nt<j>|blpre|blpost|s2pre|s2post|end   (where the coordinator process is killed)
-//   fstore <id> <cut>                                  real file provider Store interrupted after <cut> bytes (RLIMIT_FSIZE)
+//
+//	sel   <id> <resp>                                  resp = s=term:off,...  ("-" = empty map)
+//	elect <id> <prov> <ens> <rem> <t0> <heads> <incs>  prov = mem|file; ens/rem = 1,2,3 ("-" = none); heads as resp
+//	     incs = inc/inc/...      inc = round|round|...@gate
+//	     round = arrivals;bl;refence   arrivals = 1+,2-,T,3+ ; bl = ok|err ; refence = 4+,5- or "-"
+//	     gate = none|s1pre|s1post|nt<j>|blpre|blpost|s2pre|s2post|end   (where the coordinator process is killed)
+//	fstore <id> <cut>                                  real file provider Store interrupted after <cut> bytes (RLIMIT_FSIZE)
 package main
 
 import (
@@ -22,6 +23,7 @@ import (
 	"flag"
 	"fmt"
 	"io"
+	"log/slog"
 	"os"
 	"os/exec"
 	"path/filepath"
@@ -36,9 +38,12 @@ import (
 
 	"github.com/cenkalti/backoff/v4"
 	"github.com/emirpasic/gods/v2/sets/linkedhashset"
+	"google.golang.org/grpc"
 	"google.golang.org/grpc/health/grpc_health_v1"
+	grpcmd "google.golang.org/grpc/metadata"
 
 	"github.com/oxia-db/oxia/common/constant"
+	"github.com/oxia-db/oxia/coordinator"
 	"github.com/oxia-db/oxia/coordinator/controllers"
 	"github.com/oxia-db/oxia/coordinator/metadata"
 	"github.com/oxia-db/oxia/coordinator/model"
@@ -313,7 +318,7 @@ func (w *labelWatch) waitGone(shard int64, node string) bool {
 type reply struct {
 	err   error
 	head  *eid
-	apply bool // store: perform the underlying Store
+	apply bool          // store: perform the underlying Store
 	done  chan struct{} // store: closed by the wrapper when the underlying Store has returned
 	gs    *proto.GetStatusResponse
 }
@@ -371,7 +376,10 @@ func (in *incarnation) call(ctx context.Context, e *event) (reply, error) {
 }
 
 // rpc.Provider of one incarnation
-type fakeRPC struct{ in *incarnation }
+type fakeRPC struct {
+	in      *incarnation
+	healthy bool // node controllers of a real coordinator: health checks answer SERVING
+}
 
 func (f *fakeRPC) PushShardAssignments(context.Context, model.Server) (proto.OxiaCoordination_PushShardAssignmentsClient, error) {
 	return nil, errors.New("not used")
@@ -427,8 +435,44 @@ func (f *fakeRPC) DeleteShard(ctx context.Context, node model.Server, req *proto
 	return &proto.DeleteShardResponse{}, nil
 }
 func (f *fakeRPC) GetHealthClient(model.Server) (grpc_health_v1.HealthClient, io.Closer, error) {
-	return nil, nil, errors.New("not used")
+	if !f.healthy {
+		return nil, nil, errors.New("not used")
+	}
+	return okHealth{}, io.NopCloser(nil), nil
 }
+
+// okHealth: a storage node that is always SERVING
+type okHealth struct{}
+
+func (okHealth) Check(context.Context, *grpc_health_v1.HealthCheckRequest, ...grpc.CallOption) (*grpc_health_v1.HealthCheckResponse, error) {
+	return &grpc_health_v1.HealthCheckResponse{Status: grpc_health_v1.HealthCheckResponse_SERVING}, nil
+}
+func (okHealth) List(context.Context, *grpc_health_v1.HealthListRequest, ...grpc.CallOption) (*grpc_health_v1.HealthListResponse, error) {
+	return &grpc_health_v1.HealthListResponse{}, nil
+}
+func (okHealth) Watch(ctx context.Context, _ *grpc_health_v1.HealthCheckRequest, _ ...grpc.CallOption) (grpc_health_v1.Health_WatchClient, error) {
+	return &okWatch{ctx: ctx}, nil
+}
+
+type okWatch struct {
+	ctx  context.Context
+	sent bool
+}
+
+func (w *okWatch) Recv() (*grpc_health_v1.HealthCheckResponse, error) {
+	if !w.sent {
+		w.sent = true
+		return &grpc_health_v1.HealthCheckResponse{Status: grpc_health_v1.HealthCheckResponse_SERVING}, nil
+	}
+	<-w.ctx.Done()
+	return nil, w.ctx.Err()
+}
+func (*okWatch) Header() (grpcmd.MD, error)            { return nil, nil }
+func (*okWatch) Trailer() grpcmd.MD                    { return nil }
+func (*okWatch) CloseSend() error                      { return nil }
+func (w *okWatch) Context() context.Context            { return w.ctx }
+func (*okWatch) SendMsg(any) error                     { return nil }
+func (*okWatch) RecvMsg(any) error                     { return nil }
 func (f *fakeRPC) ClearPooledConnections(model.Server) {}
 
 // metadata.Provider wrapper of one incarnation: every Store is an event; the conductor decides whether it reaches the
@@ -470,8 +514,8 @@ func (m *metaWrap) Store(cs *model.ClusterStatus, v metadata.Version) (metadata.
 // resources.ClusterConfigResource stub: no server changed its address
 type cfgStub struct{}
 
-func (cfgStub) Close() error                { return nil }
-func (cfgStub) Load() *model.ClusterConfig  { return &model.ClusterConfig{} }
+func (cfgStub) Close() error                      { return nil }
+func (cfgStub) Load() *model.ClusterConfig        { return &model.ClusterConfig{} }
 func (cfgStub) Nodes() *linkedhashset.Set[string] { return linkedhashset.New[string]() }
 func (cfgStub) NodesWithMetadata() (*linkedhashset.Set[string], map[string]model.ServerMetadata) {
 	return linkedhashset.New[string](), map[string]model.ServerMetadata{}
@@ -489,22 +533,25 @@ type nodeState struct {
 }
 
 type caseRun struct {
-	sc      *script
-	shard   int64
-	tmp     string
-	trace   []string
-	viols   [][2]string
-	nodes   map[string]*nodeState
-	maxSent int64 // highest term sent by previous incarnations
-	anySent bool
-	blBy    map[int64]string
-	under   metadata.Provider // memory provider (shared by all incarnations); file: re-created per incarnation
-	path    string
-	useLbl  bool
-	stats   map[string]int
+	sc         *script
+	shard      int64
+	tmp        string
+	trace      []string
+	viols      [][2]string
+	nodes      map[string]*nodeState
+	maxSent    int64 // highest term sent by previous incarnations
+	anySent    bool
+	lastStored int64 // term of the shard in the last Store that reached the provider
+	anyStored  bool
+	blBy       map[int64]string
+	under      metadata.Provider // memory provider (shared by all incarnations); file: re-created per incarnation
+	path       string
+	useLbl     bool
+	stats      map[string]int
 	// set when two consecutive answers could not be handed over well inside the grace period (machine overloaded):
 	// the schedule that was asked for may not be the one that ran; the case is re-run, and dropped if it never runs cleanly
 	unreliable bool
+	gateMissed bool // cfgrace: ConfigChanged never reached the parking place
 }
 
 func (c *caseRun) tok(f string, a ...any) { c.trace = append(c.trace, fmt.Sprintf(f, a...)) }
@@ -658,18 +705,39 @@ func (c *caseRun) runIncarnation(inc incScript) bool {
 	}
 	defer kill()
 
+	return c.playIncarnation(in, md, inc)
+}
+
+// mkNoteSent returns the monitor of "a restarted coordinator never reuses or goes below a term already sent" for one incarnation.
+func (c *caseRun) mkNoteSent() func(string, int64) {
 	prevMax, prevAny := c.maxSent, c.anySent
-	noteSent := func(kind string, t int64) {
+	return func(kind string, t int64) {
 		if prevAny && t <= prevMax {
 			c.viol("election:term-reused-after-restart", "%s with term %d after a restart; terms up to %d were sent before (script %s)",
-				kind, t, prevMax, sc.String())
+				kind, t, prevMax, c.sc.String())
 		}
 		if !c.anySent || t > c.maxSent {
 			c.maxSent, c.anySent = t, true
 		}
 	}
+}
 
-	// --- run(): verification of a stored leader, or election
+// noteStore is the monitor on the sequence of Store payloads: the stored term of the shard never decreases.
+func (c *caseRun) noteStore(md *model.ShardMetadata, who string) {
+	if md == nil {
+		return
+	}
+	if c.anyStored && md.Term < c.lastStored {
+		c.viol("store:shard-term-regressed", "a Store by %s writes term %d for the shard, the store held term %d (status %s, leader %v) (script %s)",
+			who, md.Term, c.lastStored, statusName(md.Status), md.Leader, c.sc.String())
+	}
+	c.lastStored, c.anyStored = md.Term, true
+}
+
+// playIncarnation follows one shard controller from its start (run(): verification of a stored leader, or election).
+func (c *caseRun) playIncarnation(in *incarnation, md model.ShardMetadata, inc incScript) bool {
+	sc := c.sc
+	noteSent := c.mkNoteSent()
 	startElection := md.Leader == nil || md.Status != model.ShardStatusSteadyState
 	if !startElection {
 		ok := true
@@ -747,10 +815,12 @@ func (c *caseRun) runRound(in *incarnation, r round, gate string, noteSent func(
 	if gate == "s1post" {
 		// the write happens, the process dies before Store returns
 		c.tok("X:s1post")
+		c.noteStore(e.md, "the shard controller")
 		applyStore(e)
 		in.kill()
 		return roundKilled
 	}
+	c.noteStore(e.md, "the shard controller")
 	applyStore(e)
 	term := e.md.Term
 	fq := append(append([]string{}, names2(e.md.Ensemble)...), names2(e.md.RemovedNodes)...)
@@ -959,10 +1029,12 @@ func (c *caseRun) runRound(in *incarnation, r round, gate string, noteSent func(
 		}
 		if gate == "s2post" {
 			c.tok("X:s2post")
+			c.noteStore(e.md, "the shard controller")
 			applyStore(e)
 			in.kill()
 			return roundKilled
 		}
+		c.noteStore(e.md, "the shard controller")
 		applyStore(e)
 		break
 	}
@@ -1079,6 +1151,275 @@ func names2(l []model.Server) []string {
 	return r
 }
 func names2raw(l []string) []string { return l }
+
+// ---------------------------------------------------------------------------------------------------------------
+// cfgrace: a REAL coordinator (coordinator.NewCoordinator).  Coordinator.ConfigChanged is parked between its
+// LoadWithVersion and its Swap while the shard controller's election retry stores term+1 and sends it; then it is
+// released, the coordinator is killed and a new one is started from the stored status.
+//
+// The parking place is inside utils.ApplyClusterChanges: the new config adds a namespace that cannot be placed
+// (replication factor above the number of servers), the failed ensemble selection is reported with slog.Error, and
+// the harness' slog handler blocks there.  If that report disappears the schedule cannot be realised and the case is
+// not evaluated (counted as cfgrace:gate-not-reached), never an alarm.
+
+type cfgGate struct {
+	hit     chan struct{}
+	release chan struct{}
+	once    sync.Once
+}
+
+var cfgGates sync.Map // namespace name -> *cfgGate
+
+type gateHandler struct{}
+
+func (gateHandler) Enabled(_ context.Context, l slog.Level) bool { return l >= slog.LevelError }
+func (gateHandler) WithAttrs([]slog.Attr) slog.Handler           { return gateHandler{} }
+func (gateHandler) WithGroup(string) slog.Handler                { return gateHandler{} }
+func (gateHandler) Handle(_ context.Context, r slog.Record) error {
+	if !strings.HasPrefix(r.Message, "failed to select new ensembles") {
+		return nil
+	}
+	r.Attrs(func(a slog.Attr) bool {
+		if a.Key == "namespace" {
+			if g, ok := cfgGates.Load(a.Value.String()); ok {
+				gate := g.(*cfgGate)
+				gate.once.Do(func() {
+					close(gate.hit)
+					select {
+					case <-gate.release:
+					case <-time.After(20 * time.Second):
+					}
+				})
+			}
+			return false
+		}
+		return true
+	})
+	return nil
+}
+
+func (c *caseRun) runCfgRace(full bool, t0 int64) {
+	ens := []string{"1", "2", "3"}
+	c.sc = &script{prov: "mem", ens: ens, t0: t0, heads: map[string]eid{}, hord: ens,
+		incs: []incScript{{gate: "cfgrace"}}}
+	c.nodes = map[string]*nodeState{}
+	c.blBy = map[int64]string{}
+	for i, n := range ens {
+		c.sc.heads[n] = eid{t0, 10}
+		st := proto.ServingStatus_FOLLOWER
+		if i == 0 {
+			st = proto.ServingStatus_LEADER
+		}
+		c.nodes[n] = &nodeState{status: st, term: t0, known: true}
+	}
+	l0 := srv("1")
+	c.under = metadata.NewMetadataProviderMemory()
+	cs := model.NewClusterStatus()
+	cs.ShardIdGenerator = c.shard + 1
+	cs.Namespaces[ns] = model.NamespaceStatus{ReplicationFactor: 3, Shards: map[int64]model.ShardMetadata{
+		c.shard: {Status: model.ShardStatusSteadyState, Term: t0, Leader: &l0, Ensemble: srvs(ens),
+			Int32HashRange: model.Int32HashRange{Min: 0, Max: 0xFFFFFFFF}},
+	}}
+	if _, err := c.under.Store(cs, metadata.NotExists); err != nil {
+		c.tok("X:setup-error")
+		return
+	}
+	c.lastStored, c.anyStored = t0, true
+	cfg := model.ClusterConfig{
+		Namespaces: []model.NamespaceConfig{{Name: ns, InitialShardCount: 1, ReplicationFactor: 3}},
+		Servers:    srvs(ens),
+	}
+	start := func() (*incarnation, coordinator.Coordinator, model.ShardMetadata, bool) {
+		in := newIncarnation(c.shard)
+		mw := &metaWrap{in: in, under: c.under, shard: c.shard}
+		cur, _, _ := c.under.Get()
+		md := cur.Namespaces[ns].Shards[c.shard]
+		co, err := coordinator.NewCoordinator(mw, func() (model.ClusterConfig, error) { return cfg, nil }, make(chan any),
+			&fakeRPC{in: in, healthy: true})
+		if err != nil {
+			c.tok("X:coordinator-start-error")
+			return nil, nil, md, false
+		}
+		return in, co, md, true
+	}
+	stop := func(in *incarnation, co coordinator.Coordinator) {
+		in.kill()
+		go func() { _ = co.Close() }()
+	}
+
+	// ---- incarnation 0
+	c.tok("I0")
+	in, co, md, ok := start()
+	if !ok {
+		return
+	}
+	stopped := false
+	defer func() {
+		if !stopped {
+			stop(in, co)
+		}
+	}()
+	if !c.playIncarnation(in, md, incScript{gate: "none"}) { // verification of the stored leader: GS x3, IDLE
+		return
+	}
+	if c.trace[len(c.trace)-1] != "IDLE" {
+		c.tok("X:not-idle")
+		return
+	}
+	noteSent := c.mkNoteSent()
+	expectStore := func(who string) *event {
+		e := next(in, evTimeout)
+		if e == nil || e.kind != "store" {
+			c.tok("X:stuck-store")
+			return nil
+		}
+		c.noteStore(e.md, who)
+		return e
+	}
+	collectNT := func(term int64) map[string]*event {
+		pending := map[string]*event{}
+		for len(pending) < len(ens) {
+			e := next(in, evTimeout)
+			if e == nil || e.kind != "nt" {
+				c.tok("X:stuck-newterm")
+				return nil
+			}
+			if dt, ok := c.durableTerm(); !ok || dt < e.term {
+				c.viol("election:term-not-stored-before-newterm", "NewTerm(term=%d) sent to %s while the stored term is %d (cfgrace)", e.term, e.node, dt)
+			}
+			noteSent("NewTerm", e.term)
+			pending[e.node] = e
+		}
+		c.tok("NT:%d:%s", term, strings.Join(ens, "."))
+		return pending
+	}
+	// the leader is reported unavailable: first attempt, NewTerm requests are held
+	go co.NodeBecameUnavailable(l0)
+	e := expectStore("the shard controller")
+	if e == nil {
+		return
+	}
+	c.tok("%s", c.fmtStore(e.md))
+	applyStore(e)
+	pend := collectNT(e.md.Term)
+	if pend == nil {
+		return
+	}
+	// ConfigChanged: a label on a server and a namespace that cannot be placed
+	gname := fmt.Sprintf("unplaceable-%d", c.shard)
+	gate := &cfgGate{hit: make(chan struct{}), release: make(chan struct{})}
+	cfgGates.Store(gname, gate)
+	defer cfgGates.Delete(gname)
+	newCfg := cfg
+	newCfg.Namespaces = append(append([]model.NamespaceConfig{}, cfg.Namespaces...),
+		model.NamespaceConfig{Name: gname, InitialShardCount: 1, ReplicationFactor: 5})
+	newCfg.ServerMetadata = map[string]model.ServerMetadata{"1": {Labels: map[string]string{"rack": "r1"}}}
+	cfgDone := make(chan struct{})
+	go func() {
+		defer close(cfgDone)
+		defer func() { _ = recover() }()
+		co.ConfigChanged(&newCfg)
+	}()
+	select {
+	case <-gate.hit:
+	case <-time.After(3 * time.Second):
+		c.gateMissed = true
+		close(gate.release)
+		return
+	}
+	// the attempt fails; the retry stores the next term while ConfigChanged holds its snapshot
+	for _, n := range ens {
+		pend[n].reply <- reply{err: errors.New("scripted failure")}
+	}
+	e = expectStore("the shard controller")
+	if e == nil {
+		close(gate.release)
+		return
+	}
+	c.tok("Q:fail")
+	c.tok("%s", c.fmtStore(e.md))
+	applyStore(e)
+	term := e.md.Term
+	pend = collectNT(term)
+	if pend == nil {
+		close(gate.release)
+		return
+	}
+	for _, n := range ens {
+		h := c.sc.heads[n]
+		c.nodes[n].status, c.nodes[n].term = proto.ServingStatus_FENCED, term
+		pend[n].reply <- reply{head: &h}
+	}
+	bl := next(in, evTimeout)
+	if bl == nil || bl.kind != "bl" {
+		c.tok("X:stuck-becomeleader")
+		close(gate.release)
+		return
+	}
+	leader := bl.node
+	fm := map[string]eid{}
+	var fmk []string
+	for k, v := range bl.bl.FollowerMaps {
+		fm[k] = eid{v.Term, v.Offset}
+		fmk = append(fmk, k)
+	}
+	sort.Strings(fmk)
+	c.tok("BL:%d:%d:%s:%s", bl.term, bl.bl.ReplicationFactor, leader, fmtResp(fm, fmk))
+	noteSent("BecomeLeader", bl.term)
+	c.blBy[bl.term] = leader
+	if dt, ok := c.durableTerm(); !ok || dt < bl.term {
+		c.viol("election:term-not-stored-before-newterm", "BecomeLeader(term=%d) sent while the stored term is %d (cfgrace)", bl.term, dt)
+	}
+	if full {
+		c.nodes[leader].status = proto.ServingStatus_LEADER
+		for _, k := range fmk {
+			c.nodes[k].status = proto.ServingStatus_FOLLOWER
+		}
+		c.tok("BLR:ok")
+		bl.reply <- reply{}
+		e = expectStore("the shard controller")
+		if e == nil {
+			close(gate.release)
+			return
+		}
+		c.tok("%s", c.fmtStore(e.md))
+		applyStore(e)
+	}
+	// ConfigChanged resumes: its Swap meets a newer version
+	close(gate.release)
+	e = expectStore("Coordinator.ConfigChanged")
+	if e == nil {
+		return
+	}
+	c.tok("C%s", c.fmtStore(e.md))
+	applyStore(e)
+	select {
+	case <-cfgDone:
+	case <-time.After(evTimeout):
+		c.tok("X:configchanged-stuck")
+		return
+	}
+	if dt, ok := c.durableTerm(); !ok || dt < c.maxSent {
+		c.viol("store:shard-term-regressed", "after ConfigChanged the store holds term %d for the shard, term %d was already sent to the nodes (cfgrace full=%v t0=%d)",
+			dt, c.maxSent, full, t0)
+	}
+	c.tok("X:cfg")
+	stop(in, co)
+	stopped = true
+
+	// ---- incarnation 1: a new coordinator on the stored status
+	c.tok("I1")
+	in2, co2, md2, ok := start()
+	if !ok {
+		return
+	}
+	defer stop(in2, co2)
+	r := round{blOK: true, refence: map[string]bool{}}
+	for _, n := range ens {
+		r.arrivals = append(r.arrivals, arrival{node: n, ok: true})
+	}
+	c.playIncarnation(in2, md2, incScript{rounds: []round{r}, gate: "none"})
+}
 
 // ---------------------------------------------------------------------------------------------------------------
 // selectNewLeader as a pure function
@@ -1353,6 +1694,7 @@ func main() {
 		fstoreChild(*child, *cut, 8)
 		return
 	}
+	slog.SetDefault(slog.New(gateHandler{}))
 	o := hx.NewOut(f.OutDir)
 	defer o.Close()
 	r := hx.NewRng(f.Seed)
@@ -1370,6 +1712,8 @@ func main() {
 		resp map[string]eid
 		ord  []string
 		cut  uint64
+		full bool
+		t0   int64
 	}
 	var jobs []job
 	addLine := func(line string) {
@@ -1388,6 +1732,11 @@ func main() {
 		case "fstore":
 			c, _ := strconv.ParseUint(t[2], 10, 64)
 			jobs = append(jobs, job{kind: "fstore", cut: c})
+		case "cfgrace":
+			if len(t) >= 4 {
+				t0, _ := strconv.ParseInt(t[3], 10, 64)
+				jobs = append(jobs, job{kind: "cfgrace", full: t[2] == "full", t0: t0})
+			}
 		}
 	}
 	replay := hx.CorpusLines(f.Corpus)
@@ -1416,6 +1765,9 @@ func main() {
 		for i := 0; i < f.N; i++ {
 			jobs = append(jobs, job{kind: "elect", sc: genScript(r.Fork())})
 		}
+		for i := 0; i < 2+f.N/60; i++ {
+			jobs = append(jobs, job{kind: "cfgrace", full: r.Bool(), t0: int64(r.Intn(9))})
+		}
 	}
 
 	// election cases run concurrently (each is dominated by the 100 ms grace timer); results are recorded in job order
@@ -1429,6 +1781,25 @@ func main() {
 	sem := make(chan struct{}, 16)
 	var wg sync.WaitGroup
 	for i, j := range jobs {
+		if j.kind == "cfgrace" {
+			wg.Add(1)
+			sem <- struct{}{}
+			go func(i int, j job) {
+				defer wg.Done()
+				defer func() { <-sem }()
+				c := &caseRun{shard: int64(5000000 + i), tmp: tmp, useLbl: true, stats: map[string]int{}}
+				func() {
+					defer func() {
+						if rec := recover(); rec != nil {
+							c.tok("X:harness-panic:%v", rec)
+						}
+					}()
+					c.runCfgRace(j.full, j.t0)
+				}()
+				results[i] = &result{trace: c.trace, viols: c.viols, stats: c.stats, skipped: c.gateMissed}
+			}(i, j)
+			continue
+		}
 		if j.kind != "elect" {
 			continue
 		}
@@ -1470,6 +1841,27 @@ func main() {
 			runSel(o, j.resp, j.ord)
 		case "fstore":
 			runFstore(o, tmp, i, j.cut)
+		case "cfgrace":
+			res := results[i]
+			if res.skipped {
+				o.Count("cfgrace:gate-not-reached")
+				continue
+			}
+			mode := "bl"
+			if j.full {
+				mode = "full"
+			}
+			in := fmt.Sprintf("%s %d", mode, j.t0)
+			o.Case("cfgrace", in, strings.Join(res.trace, " "), in)
+			for _, v := range res.viols {
+				o.Violation(v[0], v[1])
+			}
+			o.Count("cfgrace:" + mode)
+			for _, t := range res.trace {
+				if strings.HasPrefix(t, "X:stuck") || strings.HasPrefix(t, "X:unexpected") || strings.HasPrefix(t, "X:harness") {
+					o.Count("cfgrace:" + t)
+				}
+			}
 		case "elect":
 			res := results[i]
 			if res.skipped {
